@@ -161,9 +161,10 @@ def clark_ambiguous(d):
 # code -> spec, primitive level
 # ---------------------------------------------------------------------------------------------------------------
 def _record(job):
-    d, cx, kind, ns = job
+    d, cx, kind, ns = job[:4]
+    history, strict = (job[4], job[5]) if len(job) > 4 else ((), False)
     try:
-        tr = treestore.with_timeout(lambda: treestore.record_parse(d, cx, kind, ns))
+        tr = treestore.with_timeout(lambda: treestore.record_parse(d, cx, kind, ns, history=history, strict=strict))
     except treestore.Timeout:
         return {"harness_error": "parse + projection did not finish within 20 s", "src": d, "cx": cx, "builder": kind}
     except Exception as e:
@@ -171,11 +172,15 @@ def _record(job):
     tr["src"] = d
     tr["cx"] = cx
     tr["ns"] = ns
+    tr["history"] = [list(h) for h in history]
+    tr["strict"] = strict
+    if strict and tr["raised"]:
+        tr["skip"] = True                 # the strict parser gave up on this input itself: no finished tree to judge
     return tr
 
 
-def primitive_traces(ctx, docs, listed):
-    jobs = []
+def primitive_traces(ctx, docs, listed, extra_jobs=(), tag="prim"):
+    jobs = list(extra_jobs)
     for i, (d, cx) in enumerate(docs):
         jobs.append((d, cx, "etree" if i % 2 else "dom", i % 3 != 0))
         if i % 5 == 0:
@@ -185,7 +190,7 @@ def primitive_traces(ctx, docs, listed):
     for r in rows:
         if "harness_error" in r:
             ctx.violation("recording failed: %s" % r["harness_error"], {"kind": "record", "src": r["src"], "cx": r["cx"], "builder": r["builder"]})
-        else:
+        elif not r.get("skip"):
             good.append(r)
     slim = [{"b": r["b"], "frag": r["frag"], "ev": r["ev"], "tree": r["tree"]} for r in good]
     idx = {id(t): i for i, t in enumerate(slim)}
@@ -196,10 +201,11 @@ def primitive_traces(ctx, docs, listed):
         ops = {e["op"] for e in r["ev"]}
         if "reparent" in ops or "before" in ops or "remove" in ops:
             ctx.nontriv(("prim", r["src"], str(r["cx"]), r["b"]))
-    ctx.notes["primitive_events_validated"] = nev
-    for tr, rec in core.validate_traces(ctx, "Trace_TreeStore", slim, "prim", consts=kd(listed), batch_bytes=12 << 20):
+    ctx.notes["primitive_events_validated"] = ctx.notes.get("primitive_events_validated", 0) + nev
+    for tr, rec in core.validate_traces(ctx, "Trace_TreeStore", slim, tag, consts=kd(listed), batch_bytes=12 << 20):
         r = good[idx[id(tr)]]
-        case = {"kind": "prim", "src": r["src"], "cx": r["cx"], "builder": "etree" if r["b"] == "E" else "dom", "ns": r["ns"]}
+        case = {"kind": "prim", "src": r["src"], "cx": r["cx"], "builder": "etree" if r["b"] == "E" else "dom", "ns": r["ns"],
+                "history": r["history"], "strict": r["strict"]}
         v = rec["v"]
         if v.startswith("finding:"):
             for key in rec["f"]:
@@ -213,7 +219,9 @@ def primitive_traces(ctx, docs, listed):
         else:
             ctx.violation("primitive-call trace rejected by Trace_TreeStore: %s at event %d" % (v, rec["l"]), dict(case, verdict=rec))
     # patterns outside the discipline assumed by MC_TreeStore (reported in the evidence; no verdict depends on them)
-    ctx.notes["call_patterns_outside_model"] = pats
+    for k, v in pats.items():
+        ctx.notes.setdefault("call_patterns_outside_model", {})[k] = ctx.notes.get("call_patterns_outside_model", {}).get(k, 0) + v
+    ctx.notes.setdefault("call_patterns_outside_model", {})
     if good:
         m = good[len(good) // 3]
         ctx.sample({"code_to_spec(primitive)": m["src"], "container": m["cx"], "builder": m["b"],
@@ -257,7 +265,8 @@ def _hns_dom(root):
     return sorted(out)
 
 
-def forms(d, cx, scripting=False):
+def forms(d, cx, scripting=False, history=None, strict=False):
+    """the six builder forms of one input; with a history each parser object has been used before (treestore.run_history)"""
     import html5lib
     from html5lib import treebuilders
     out = []
@@ -270,7 +279,9 @@ def forms(d, cx, scripting=False):
             else:
                 tbc = treebuilders.getTreeBuilder("dom")
             try:
-                p = html5lib.HTMLParser(tree=tbc, namespaceHTMLElements=ns)
+                p = html5lib.HTMLParser(tree=tbc, namespaceHTMLElements=ns, strict=strict)
+                if history:
+                    treestore.run_history(p, history)
                 r = p.parse(d, scripting=scripting) if cx is None else p.parseFragment(d, container=cx, scripting=scripting)
                 if b == "dom":
                     t, h = treeproj.from_dom_fragment(r), _hns_dom(r)
@@ -280,7 +291,7 @@ def forms(d, cx, scripting=False):
                     t, h = treeproj.from_etree_fragment(r), _hns_etree(r, False)
             except Exception as e:
                 t, h = [treeproj.node("exc", n=enc(type(e).__name__))], []
-            out.append({"b": b, "ns": ns, "t": t, "hns": h})
+            out.append({"b": b, "ns": ns, "h": bool(history), "t": t, "hns": h})
     return out
 
 
@@ -292,23 +303,31 @@ def packed(fs):
         if k not in keys:
             keys[k] = len(trees) + 1
             trees.append(f["t"])
-        out.append({"b": f["b"], "ns": f["ns"], "ti": keys[k], "hns": f["hns"]})
+        out.append({"b": f["b"], "ns": f["ns"], "h": f["h"], "ti": keys[k], "hns": f["hns"]})
     return trees, out
 
 
 def _forms_row(job):
-    d, cx = job
+    d, cx = job[:2]
+    history, strict = (job[2], job[3]) if len(job) > 2 else (None, False)
+
+    def go():
+        fs = forms(d, cx, strict=strict)
+        if history:                       # the same six forms from parser objects with a past: 12 forms judged together
+            fs += forms(d, cx, history=history, strict=strict)
+        return fs
     try:
-        fs = treestore.with_timeout(lambda: forms(d, cx), 60)
+        fs = treestore.with_timeout(go, 60)
     except treestore.Timeout:
-        fs = [{"b": b, "ns": ns, "t": [treeproj.node("exc", n=enc("Timeout:" + b))], "hns": []}
+        fs = [{"b": b, "ns": ns, "h": False, "t": [treeproj.node("exc", n=enc("Timeout:" + b))], "hns": []}
               for b in ("etree-full", "etree-root", "dom") for ns in (True, False)]
     trees, out = packed(fs)
-    return {"frag": cx is not None, "trees": trees, "forms": out, "src": d, "cx": cx}
+    return {"frag": cx is not None, "trees": trees, "forms": out, "src": d, "cx": cx,
+            "history": [list(h) for h in history] if history else [], "strict": strict}
 
 
 def end_to_end(ctx, docs, listed, tag):
-    rows = core.parallel(_forms_row, docs, chunk=300)
+    rows = core.parallel(_forms_row, docs, chunk=200)
     slim = [{"frag": r["frag"], "trees": r["trees"], "forms": r["forms"]} for r in rows]
     idx = {id(t): i for i, t in enumerate(slim)}
     for r in rows:
@@ -324,11 +343,46 @@ def end_to_end(ctx, docs, listed, tag):
         elif v == "accept-raised":
             raised += 1
         else:
-            ctx.violation("tree builders disagree: %s" % v, {"kind": "e2e", "src": r["src"], "cx": r["cx"], "verdict": v})
+            ctx.violation("tree builders disagree%s: %s" % (" on a parser object that was used before" if r["history"] else "", v),
+                          {"kind": "e2e", "src": r["src"], "cx": r["cx"], "verdict": v, "history": r["history"], "strict": r["strict"]})
     ctx.notes["inputs_on_which_every_form_raised_the_same_exception"] = ctx.notes.get("inputs_on_which_every_form_raised_the_same_exception", 0) + raised
     if rows:
         m = rows[len(rows) // 2]
         ctx.sample({"code_to_spec(end_to_end)": m["src"], "container": m["cx"], "tree": treeproj.show(m["trees"][0])[:300]})
+
+
+# ---- parser objects with a past -------------------------------------------------------------------------------
+# pieces of earlier documents; the prologue ones (before any start tag) are where a Document holds nodes but no root yet
+PRO_CORE = ["<!--c-->", "<!DOCTYPE html>", " ", "<p>", "</p>", "x", "<html a=1>", "<head>", "<table><td>y", "</br>"]
+PRO_MORE = ["<!DOCTYPE x PUBLIC \"p\" \"s\">", "\n", "<title>t", "<frameset>", "<!-- saved from url=(0014)about:internet -->\n",
+            "<body b=2>", "<svg>", "<select>", "<?pi?>", "<!DOCTYPE>", "</html>", "\x00", "&amp;"]
+NEXT_DOCS = [("<!DOCTYPE html><title>report</title><p>all <b>fine</b></p>", None), ("<!--x--><!DOCTYPE html><table><tr><td>1<p>2</table>3", None),
+             ("<p>x", None), ("<!--a--><html lang=en><!--b-->", None), ("<td>x</td>y", "tr"), ("", None), ("<!DOCTYPE html>", None),
+             ("<b><p>x</b>y", "div")]
+
+
+def history_jobs(ctx, depth, n_random):
+    """(next input, container, history, strict): every sequence of <= depth core pieces as an earlier document that is (a) parsed by a
+    strict parser (gives up at its first parse error, wherever that is), (b) delivered by a source that fails after each of its
+    pieces in turn (an abort at each point of the document, prologue included), (c) parsed to the end; plus random longer
+    documents over the wider alphabet and histories of two documents"""
+    seqs = [t for k in range(1, depth + 1) for t in itertools.product(PRO_CORE, repeat=k)]
+    for _ in range(n_random):
+        seqs.append(tuple(ctx.rng.choice(PRO_CORE + PRO_MORE) for _ in range(ctx.rng.randint(2, 5))))
+    jobs = []
+    for i, s in enumerate(seqs):
+        nxt = NEXT_DOCS[i % len(NEXT_DOCS)]
+        jobs.append(nxt + (((s, False),), True))
+        for k in range(1, len(s) + 1):
+            jobs.append(NEXT_DOCS[(i + k) % len(NEXT_DOCS)] + (((s[:k], True),), False))
+        if i % 4 == 0:
+            jobs.append(nxt + (((s, False),), False))
+        if i % 7 == 0:
+            t = seqs[(i * 31 + 7) % len(seqs)]
+            jobs.append(nxt + (((s, True), (t, True)), False))
+            jobs.append(nxt + (((s, False), (t, False)), True))
+    jobs.append(NEXT_DOCS[0] + ((((), True),), False))         # the source fails before it delivers anything
+    return jobs
 
 
 def mc_tree_inputs(ctx, plan, listed_tc):
@@ -407,6 +461,8 @@ def run(ctx):
     ctx.notes["etree-reparent-tail-none"] = ("TypeError reachable through the raw node API (TLC witness: %s) but ThmNoException holds for every "
                                              "parser-pattern sequence within the bounds and no recorded parse reparents into a used node"
                                              % r4.violated)
+    # ---- 2b. one builder object over several parses, each abandoned anywhere (prologue included) ---------------
+    run_mc(ctx, "mc-lifecycle", "lifecycle", "structure", 5 if q else 7, 6, True, [], ALL_THMS)
     ctx.exhaustive = True
     # ---- 3. + 4. code -> spec -------------------------------------------------------------------------------
     docs = gen_inputs(ctx, 1500 if q else 15000, [("formatting", 2), ("table", 2)] if q else [("formatting", 3), ("table", 3), ("select", 2), ("foreign", 2)])
@@ -415,8 +471,11 @@ def run(ctx):
     ctx.notes["inputs_skipped_clark_notation_ambiguity"] = len(skipped)
     seen = set()
     docs = [x for x in docs if not (x in seen or seen.add(x))]
-    primitive_traces(ctx, docs if q else docs[::2] + WITNESSES, listed)
-    e2e_docs = list(docs)
+    hjobs = history_jobs(ctx, 2 if q else 3, 120 if q else 1500)
+    ctx.notes["reused_parser_rows"] = len(hjobs)
+    hprim = [(d, cx, "dom" if i % 2 else "etree", i % 3 != 0, h, s) for i, (d, cx, h, s) in enumerate(hjobs) if i % 3 == 0]
+    primitive_traces(ctx, docs if q else docs[::2] + WITNESSES, listed, extra_jobs=hprim)
+    e2e_docs = list(docs) + hjobs
     for d, cx in docs[:: (6 if q else 3)]:            # the same inputs in fragment contexts
         for c in ctx.rng.sample(CONTAINERS, 2):
             e2e_docs.append((d, c))
@@ -453,8 +512,9 @@ def replay(case):
         return 1 if diff else 0
     ctx = core.Ctx("C04", "quick", 0)
     listed = [x for x in DEFECTS if x in ctx.open_keys]
+    hist = tuple((tuple(h[0]), h[1]) for h in c.get("history") or ())
     if kind == "prim":
-        tr = treestore.record_parse(c["src"], c["cx"], c["builder"], c.get("ns", True))
+        tr = treestore.record_parse(c["src"], c["cx"], c["builder"], c.get("ns", True), history=hist, strict=c.get("strict", False))
         rej = core.validate_traces(ctx, "Trace_TreeStore", [{"b": tr["b"], "frag": tr["frag"], "ev": tr["ev"], "tree": tr["tree"]}], "replay",
                                    consts=kd(listed))
         rej = [r for r in rej if not r[1]["v"].startswith(("finding:", "accept"))]
@@ -462,9 +522,11 @@ def replay(case):
         print("verdict:", rej[0][1] if rej else "accepted")
         return 1 if rej else 0
     if kind in ("e2e", "spec-tree"):
-        row = _forms_row((c["src"], c["cx"]))
+        row = _forms_row((c["src"], c["cx"], hist, c.get("strict", False)) if hist else (c["src"], c["cx"]))
+        if hist:
+            print("history of the reused parser objects (pieces, source fails afterwards):", hist, "strict:", c.get("strict", False))
         for f in row["forms"]:
-            print("--- %s ns=%s\n%s" % (f["b"], f["ns"], treeproj.show(row["trees"][f["ti"] - 1])))
+            print("--- %s ns=%s reused=%s\n%s" % (f["b"], f["ns"], f["h"], treeproj.show(row["trees"][f["ti"] - 1])))
         if kind == "spec-tree":
             bad = _spec_tree_row((c["src"], c["cx"], c["expected"]))
             return 1 if bad else 0
